@@ -7,12 +7,15 @@ import (
 	"go/token"
 	"go/types"
 	"golang.org/x/tools/go/ssa"
+	"os"
 	"reflect"
 	"regexp"
 	"sort"
 	"strconv"
 	"strings"
 	"time"
+	"verif/checker/internal/dtab"
+	"verif/checker/internal/sym"
 
 	"verif/checker/internal/load"
 )
@@ -407,6 +410,7 @@ func CheckC11(c *Ctx) {
 	}
 	// the layouts dates are written and read with carry every field they carry completely
 	c.timeLayouts()
+	c.jsonSeparators()
 	// whole numbers and booleans: written in the base and with the function the reader parses
 	c.integerCodec(get, set)
 	c.parseThenSet(set)
@@ -715,31 +719,7 @@ func (c *Ctx) jsonDelims(info *types.Info) {
 	if !freshOK || decodes == 0 {
 		c.violate("codec-agreement/json", "helper.JSONToChanWithLogger", "decode target", dec.Decl.Pos(), "every array element must be decoded into a value declared inside the loop: a reused target keeps the fields an element omits and shares maps and pointers between elements")
 	}
-	// the separator is written before every element but the first
-	sepOK := false
-	ast.Inspect(enc.Decl.Body, func(n ast.Node) bool {
-		is, ok := n.(*ast.IfStmt)
-		if !ok {
-			return true
-		}
-		if strings.Contains(exprString(is.Cond), "first") {
-			has := false
-			ast.Inspect(is, func(m ast.Node) bool {
-				if bl, ok := m.(*ast.BasicLit); ok && bl.Value == "','" {
-					has = true
-				}
-				return true
-			})
-			if has {
-				sepOK = true
-			}
-		}
-		return true
-	})
-	run.Oblige(sepOK)
-	if !sepOK {
-		c.violate("codec-agreement/json", "helper.ChanToJSON", "separator", enc.Decl.Pos(), "the element separator is no longer written exactly between elements")
-	}
+	// the separator: decided by jsonSeparators
 }
 
 // isKindBitsTable: the package-level table from reflect.Kind to a bit size (pinned name kindToBits).
@@ -1201,4 +1181,214 @@ func (c *Ctx) parseThenSet(set *load.FuncInfo) {
 	}
 	run.Count("parse_set_functions", n)
 	run.Floor("parse_set_functions", 4)
+}
+
+// jsonSeparators: the JSON writer puts one separator BETWEEN the elements. The loop of
+// helper.ChanToJSON is read as a guarded command over its one boolean state variable and decided
+// on both values of it: in the state the variable has before the loop no separator is written and
+// the variable flips; in the other state a separator is written before the element and the
+// variable stays. (With the flip missing no separator is ever written: "[12]" for 1, 2.)
+func (c *Ctx) jsonSeparators() {
+	run := c.Run
+	run.Explanation += " The JSON writer's loop is simulated for three iterations from its initial flag or counter: no separator before the first element, exactly one, written first, before each later one."
+	fi := c.fn("helper", "", "ChanToJSON")
+	if fi == nil {
+		return
+	}
+	info := fi.Pkg.TypesInfo
+	site := "helper.ChanToJSON"
+	fail := func(detail, msg string, pos token.Pos) {
+		run.Oblige(false)
+		c.violate("codec-agreement/json-separator", site, detail, pos, msg)
+	}
+	var loop *ast.RangeStmt
+	for _, s := range fi.Decl.Body.List {
+		if r, ok := s.(*ast.RangeStmt); ok {
+			loop = r
+		}
+	}
+	if loop == nil {
+		fail("shape", "the writer no longer has one loop over the channel at the top level of its body (undecided, fails closed)", fi.Decl.Pos())
+		return
+	}
+	var inputs []types.Object
+	if id, ok := loop.Key.(*ast.Ident); ok && id.Name != "_" {
+		inputs = append(inputs, info.ObjectOf(id))
+	}
+	m := dtab.FromStmts(info, loop.Body.List, inputs)
+	if os.Getenv("VERIF_DEBUG_DTAB") != "" {
+		fmt.Fprintf(os.Stderr, "ChanToJSON state=%v reads=%v unsupported=%v\n", m.State, m.Reads, m.Unsupported)
+		for _, p := range m.Paths {
+			fmt.Fprintf(os.Stderr, "  conds=%v updates=%v effects=%v exit=%s\n", p.Conds, p.Updates, p.Effects, p.Exit)
+		}
+	}
+	if len(m.Unsupported) > 0 {
+		fail("shape", "the loop of the writer is not a guarded command ("+m.Unsupported[0]+"; undecided, fails closed)", loop.Pos())
+		return
+	}
+	// the state of the loop: the boolean or integer variables initialised with a constant before
+	// it and assigned in it (a "first" flag, a counter)
+	env := map[string]sym.Expr{}
+	var stateNames []string
+	for _, st := range fi.Decl.Body.List {
+		as, ok := st.(*ast.AssignStmt)
+		if !ok || as.Tok != token.DEFINE || len(as.Lhs) != 1 || len(as.Rhs) != 1 || as.Pos() > loop.Pos() {
+			continue
+		}
+		id, _ := as.Lhs[0].(*ast.Ident)
+		if id == nil {
+			continue
+		}
+		isState := false
+		for _, sv := range m.State {
+			if sv == id.Name {
+				isState = true
+			}
+		}
+		tv, has := info.Types[as.Rhs[0]]
+		if !isState || !has || tv.Value == nil {
+			continue
+		}
+		switch tv.Value.Kind() {
+		case constant.Bool:
+			if constant.BoolVal(tv.Value) {
+				env[id.Name] = sym.V("#true")
+			} else {
+				env[id.Name] = sym.V("#false")
+			}
+			stateNames = append(stateNames, id.Name)
+		case constant.Int:
+			if v, exact := constant.Int64Val(tv.Value); exact {
+				env[id.Name] = sym.N(v)
+				stateNames = append(stateNames, id.Name)
+			}
+		}
+	}
+	if len(stateNames) == 0 {
+		fail("state", "nothing in the loop of the writer tells the first element from the others (no flag or counter initialised before the loop and changed in it): either every element or none is preceded by a separator", loop.Pos())
+		return
+	}
+	// the separator: the Write calls of the loop whose argument is the one-byte literal ','
+	sepText := map[string]bool{}
+	ast.Inspect(loop.Body, func(n ast.Node) bool {
+		call, ok := n.(*ast.CallExpr)
+		if !ok || len(call.Args) != 1 {
+			return true
+		}
+		if cl, isCL := ast.Unparen(call.Args[0]).(*ast.CompositeLit); isCL && len(cl.Elts) == 1 {
+			if tv, has := info.Types[cl.Elts[0]]; has && tv.Value != nil {
+				if v, exact := constant.Int64Val(constant.ToInt(tv.Value)); exact && v == ',' {
+					sepText[exprString(call)] = true
+				}
+			}
+		}
+		return true
+	})
+	mentionsState := func(e sym.Expr) bool {
+		vs := map[string]bool{}
+		sym.Vars(e, vs)
+		for _, nme := range stateNames {
+			if vs[nme] {
+				return true
+			}
+		}
+		return false
+	}
+	type step struct {
+		seps, others int
+		sepFirst     bool
+	}
+	// three iterations from the initial state
+	var steps []step
+	why := ""
+	for k := 0; k < 3 && why == ""; k++ {
+		var falls []*dtab.Path
+		for _, p := range m.Paths {
+			if p.Exit != "fall" && p.Exit != "continue" {
+				continue
+			}
+			take := true
+			for _, cnd := range p.Conds {
+				if !mentionsState(cnd) {
+					continue // success of a write: the iteration that goes on is the one analysed
+				}
+				val, ok := dtab.EvalBool(cnd, env, numOracle)
+				if !ok {
+					why = "a condition of the loop on its state is undecided (fails closed): " + short(sym.String(cnd), 40)
+				} else if !val {
+					take = false
+				}
+			}
+			if take {
+				falls = append(falls, p)
+			}
+		}
+		if why != "" {
+			break
+		}
+		if len(falls) != 1 {
+			why = fmt.Sprintf("%d ways through iteration %d that go on (undecided, fails closed)", len(falls), k+1)
+			break
+		}
+		p := falls[0]
+		st := step{}
+		// a call with two results is recorded once per result: consecutive repeats are one call
+		var effects []string
+		for i, e := range p.Effects {
+			if i == 0 || p.Effects[i-1] != e {
+				effects = append(effects, e)
+			}
+		}
+		for i, e := range effects {
+			if sepText[e] {
+				st.seps++
+				if i == 0 {
+					st.sepFirst = true
+				}
+			} else {
+				st.others++
+			}
+		}
+		steps = append(steps, st)
+		next := map[string]sym.Expr{}
+		for _, nme := range stateNames {
+			next[nme] = env[nme]
+			u, has := p.Updates[nme]
+			if !has {
+				continue
+			}
+			switch sym.String(u) {
+			case "#true", "#false":
+				next[nme] = u
+			default:
+				v, ok := evalRat(u, env)
+				if !ok {
+					why = "the new value of " + nme + " is undecided (fails closed): " + short(sym.String(u), 40)
+				} else {
+					next[nme] = sym.Num{V: v}
+				}
+			}
+		}
+		env = next
+	}
+	run.Count("json_separator_iterations", len(steps))
+	switch {
+	case why != "":
+	case len(sepText) == 0:
+		why = "no write of the separator ',' is left in the loop"
+	case steps[0].seps != 0:
+		why = "a separator is written before the first element"
+	case steps[1].seps == 0 || steps[2].seps == 0:
+		why = "no separator is written before the second or the third element"
+	case steps[1].seps != 1 || steps[2].seps != 1:
+		why = "more than one separator is written between two elements"
+	case !steps[1].sepFirst || !steps[2].sepFirst || steps[1].others == 0:
+		why = "the separator does not precede the element it separates"
+	case steps[1].others != steps[0].others || steps[2].others != steps[0].others:
+		why = "the first and the later iterations write different things besides the separator"
+	}
+	run.Oblige(why == "")
+	if why != "" {
+		c.violate("codec-agreement/json-separator", site, short(why, 60), loop.Pos(), "the JSON writer must put exactly one ',' between consecutive elements: "+why)
+	}
 }
